@@ -107,72 +107,71 @@ fn add_softmax(thorough: bool) -> Template {
     tmpl("AddSoftmax", Some("AddSoftmaxFusion"), axes, build, |_, ops| has(ops, "AddSoftmax"))
 }
 
-/// Shapes used by the RepeatInterleave template, by rank.
-fn ri_shape(rank: usize) -> Vec<usize> {
-    match rank {
-        1 => vec![2],
-        2 => vec![2, 3],
-        3 => vec![2, 3, 2],
-        _ => vec![1, 2, 3, 2],
+/// Shapes used by the RepeatInterleave template.
+fn ri_shapes(thorough: bool) -> Vec<Vec<usize>> {
+    let mut v = vec![vec![2, 3], vec![2], vec![2, 3, 2], vec![1, 2]];
+    if thorough {
+        v.push(vec![1, 2, 3, 2]);
     }
+    v
 }
 
-/// Build `Reshape(Expand(Unsqueeze(x, u), ..), ..)`. Returns the output name and the target shape.
-/// `merge`: the expanded axis `u` is merged with its predecessor (`merge = u - 1`, an
-/// interleave of axis u-1) or with its successor (`merge = u`, a tile of axis u), or two
-/// unrelated axes are merged.
-fn ri_chain(b: &mut B, x: &str, shape: &[usize], u: usize, r: usize, merge: usize, expand_form: usize, reshape_form: usize, neg_axis: bool) -> (String, Vec<usize>, String) {
+/// Build `Reshape(Expand(Unsqueeze(x, u), ..), ..)` whose result has x's shape with axis `k`
+/// scaled by `r` (the family of subgraphs RepeatInterleaveFusion accepts by looking at shapes).
+/// `grow_other`: Expand enlarges the first size-1 axis of x instead of the new axis.
+/// Returns the output name and a structural description.
+fn ri_chain(b: &mut B, x: &str, shape: &[usize], u: usize, r: usize, k: usize, grow_other: bool, expand_form: usize, reshape_form: usize, neg_axis: bool) -> Option<(String, String)> {
     let rank = shape.len();
     let mut unsq: Vec<usize> = shape.to_vec();
     unsq.insert(u, 1);
+    let grow = if grow_other {
+        let g = shape.iter().position(|d| *d == 1)?;
+        if g >= u { g + 1 } else { g }
+    } else {
+        u
+    };
     let axis_val = if neg_axis { u as i64 - (rank as i64 + 1) } else { u as i64 };
     let axes = b.ci(&[1], &[axis_val]);
     let t1 = b.op("Unsqueeze", &[x, &axes]);
     let mut exp = unsq.clone();
-    exp[u] = r;
-    let exp_spec: Vec<i64> = if expand_form == 0 { exp.iter().map(|d| *d as i64).collect() } else { (0..exp.len()).map(|i| if i == u { r as i64 } else { 1 }).collect() };
+    exp[grow] = r;
+    let exp_spec: Vec<i64> = if expand_form == 0 { exp.iter().map(|d| *d as i64).collect() } else { (0..exp.len()).map(|i| if i == grow { r as i64 } else { 1 }).collect() };
     let es = b.ci(&[exp_spec.len() as i64], &exp_spec);
     let t2 = b.op("Expand", &[&t1, &es]);
-    // merge dims `merge` and `merge + 1` of the expanded shape
-    let mut target: Vec<usize> = Vec::new();
-    for i in 0..exp.len() {
-        if i == merge {
-            target.push(exp[i] * exp[i + 1]);
-        } else if i == merge + 1 {
-            continue;
-        } else {
-            target.push(exp[i]);
-        }
-    }
+    let mut target: Vec<usize> = shape.to_vec();
+    target[k] *= r;
     let spec: Vec<i64> = match reshape_form {
         0 => target.iter().map(|d| *d as i64).collect(),
-        1 => (0..target.len()).map(|i| if i == merge { -1 } else { target[i] as i64 }).collect(),
-        _ => (0..target.len()).map(|i| if i < merge { 0 } else { target[i] as i64 }).collect(),
+        1 => (0..rank).map(|i| if i == k { -1 } else { target[i] as i64 }).collect(),
+        _ => (0..rank).map(|i| if i < k.min(u).min(grow) { 0 } else { target[i] as i64 }).collect(),
     };
     let rs = b.ci(&[spec.len() as i64], &spec);
     let y = b.op("Reshape", &[&t2, &rs]);
     let kind = if r == 1 {
         "repeat count 1"
-    } else if merge + 1 == u {
-        "interleave (new axis merged into the preceding axis)"
-    } else if merge == u {
-        if shape[u] == 1 { "tile of a size-1 axis" } else { "tile (new axis merged into the following axis)" }
+    } else if grow_other {
+        "Expand enlarges another size-1 axis, not the new one"
+    } else if u == k + 1 {
+        "interleave (new axis directly follows the scaled axis)"
+    } else if u == k {
+        if shape[k] == 1 { "tile of a size-1 axis" } else { "tile (new axis directly precedes the scaled axis)" }
     } else {
-        "two unrelated axes merged"
+        "new axis not adjacent to the scaled axis"
     };
-    (y, target, kind.to_string())
+    Some((y, kind.to_string()))
 }
 
 /// `Reshape(Expand(Unsqueeze(x, axes), s1), s2)`
 fn repeat_interleave(thorough: bool) -> Template {
-    let ranks: Vec<usize> = if thorough { vec![2, 1, 3, 4] } else { vec![2, 1, 3] };
-    let nr = ranks.len();
-    let max_rank = *ranks.iter().max().unwrap();
+    let shapes = ri_shapes(thorough);
+    let ns = shapes.len();
+    let max_rank = shapes.iter().map(|s| s.len()).max().unwrap();
     const RMETA: [Meta; 4] = [Meta::Fixed, Meta::Sym0, Meta::Sym, Meta::Absent];
     let axes = vec![
-        ax("rank", nr, false),
+        ax("input shape", ns, false),
         ax("unsqueeze axis", max_rank + 1, true),
-        ax("merged pair", max_rank, true),
+        ax("scaled axis", max_rank, true),
+        ax("expanded axis", 2, true),
         ax("repeats", 3, true),
         ax("expand shape form", 2, true),
         ax("reshape shape form", 3, true),
@@ -181,31 +180,34 @@ fn repeat_interleave(thorough: bool) -> Template {
         ax("extra consumer", 5, true),
     ];
     let build = move |p: &[usize]| -> Option<Built> {
-        let rank = ranks[p[0]];
-        // canonical instance: unsqueeze axis 1, merged pair (0,1) = interleave of axis 0
+        let shape = shapes[p[0]].clone();
+        let rank = shape.len();
+        // canonical instance: unsqueeze axis 1, scaled axis 0 = interleave of axis 0
         let u = [1usize, 0, 2, 3, 4][p[1]];
-        let merge = p[2];
-        if u > rank || merge >= rank {
+        let k = p[2];
+        if u > rank || k >= rank {
             return None;
         }
-        let r = [2usize, 3, 1][p[3]];
-        let shape = ri_shape(rank);
+        let r = [2usize, 3, 1][p[4]];
         let mut b = B::new();
-        let meta = RMETA[p[7]];
+        let meta = RMETA[p[8]];
         let x = b.input("x", Dt::F32, &shape, meta, if meta == Meta::Fixed { None } else { alt_of(&shape) });
-        let (y, _, kind) = ri_chain(&mut b, &x, &shape, u, r, merge, p[4], p[5], p[6] == 1);
-        // with dim-0-symbolic/symbolic metadata and an explicit target shape, the alternative
-        // run shape makes Expand/Reshape fail in the reference: harmless (reference fails => anything goes)
+        // with symbolic metadata and explicit target shapes the alternative run shape makes
+        // Expand/Reshape fail in the reference: harmless (reference fails => anything goes)
+        let (y, kind) = ri_chain(&mut b, &x, &shape, u, r, k, p[3] == 1, p[5], p[6], p[7] == 1)?;
         b.out(&y, Dt::F32);
-        let extag = b.extra(p[8], &[(b.p.nodes[0].outs[0].clone(), Dt::F32), (b.p.nodes[1].outs[0].clone(), Dt::F32)]);
+        let i0 = b.p.nodes[0].outs[0].clone();
+        let i1 = b.p.nodes[1].outs[0].clone();
+        let extag = b.extra(p[9], &[(i0, Dt::F32), (i1, Dt::F32)]);
         let tags = vec![
-            format!("{rank} {shape:?}"),
+            format!("{shape:?}"),
             format!("{u}: {kind}"),
-            format!("({merge},{}): {kind}", merge + 1),
+            format!("{k}: {kind}"),
+            if p[3] == 0 { "the new axis".into() } else { "another size-1 axis".to_string() },
             format!("{r}"),
-            if p[4] == 0 { "full shape".into() } else { "ones except the repeat count".into() },
-            ["explicit", "-1 at the merged axis", "0 (copy) before the merged axis"][p[5]].to_string(),
-            if p[6] == 0 { "non-negative".into() } else { "negative".into() },
+            if p[5] == 0 { "full shape".into() } else { "ones except the repeat count".into() },
+            ["explicit", "-1 at the scaled axis", "0 (copy) for leading axes"][p[6]].to_string(),
+            if p[7] == 0 { "non-negative".into() } else { "negative".into() },
             meta.name().into(),
             extag,
         ];
@@ -253,7 +255,7 @@ fn gqa(thorough: bool) -> Template {
         let q = b.input("q", Dt::F32, &[2, 2, 2, 2], meta, None);
         let kv = b.input("kv", Dt::F32, &kv_shape, meta, None);
         // repeat form: 0 interleave on axis 1 (unsqueeze 2), 1 tile on axis 1 (unsqueeze 1), 2 interleave with repeats 1 -> n/a, 3 repeat on axis 2
-        let (u, merge, r, rtag) = match p[2] {
+        let (u, k, r, rtag) = match p[2] {
             0 => (2usize, 1usize, 2usize, "interleave heads (axis 1)"),
             1 => (1, 1, 2, "tile heads (axis 1)"),
             2 => (2, 1, 1, "repeat count 1"),
@@ -261,7 +263,7 @@ fn gqa(thorough: bool) -> Template {
         };
         let kv_in: Vec<usize> = if p[2] == 2 { vec![2, 2, 2, 2] } else if p[2] == 3 { vec![2, 2, 1, 2] } else { kv_shape.to_vec() };
         b.p.inputs[1].shape = kv_in.clone();
-        let (rep, _, _) = ri_chain(&mut b, &kv, &kv_in, u, r, merge, 0, 0, false);
+        let (rep, _) = ri_chain(&mut b, &kv, &kv_in, u, r, k, false, 0, 0, false)?;
         let cs = [0usize, 2, 3][p[3]];
         let y = match form {
             0 => b.op("MatMul", &[&q, &rep]),
